@@ -295,6 +295,65 @@ def unconditional_jumps(body: List[ast.stmt]) -> List[ast.stmt]:
     return [s for s in body if isinstance(s, (ast.Break, ast.Continue, ast.Return))]
 
 
-def term_of(expr: ast.AST, scope: Optional[Scope] = None, env=None, call_hook=None, keep=()) -> tuple:
-    e = scope.resolve(expr, keep=keep) if scope is not None else expr
+def term_of(expr: ast.AST, scope: Optional[Scope] = None, env=None, call_hook=None, keep=(), allow_mutated: bool = False) -> tuple:
+    e = scope.resolve(expr, keep=keep, allow_mutated=allow_mutated) if scope is not None else expr
     return tm.translate(e, env, call_hook)
+
+
+# ----------------------------------------------------------------------------- loop-carried memo tables
+def memo_lookup(fn_node: ast.AST, scope: Scope, expr: ast.AST):
+    """If expr is `D[key]` where D is a local dict/table filled by exactly one store `D[key2] = V` in this
+    function, return (D, key, store statement); else None."""
+    if not (isinstance(expr, ast.Subscript) and isinstance(expr.value, ast.Name)):
+        return None
+    D = expr.value.id
+    init = scope.assigns.get(D, [])
+    if len(init) != 1 or txt(init[0].value) not in ("{}", "dict()"):
+        return None
+    stores = [n for n in astx.walk_fn(fn_node) if isinstance(n, ast.Assign) and len(n.targets) == 1 and isinstance(n.targets[0], ast.Subscript)
+              and isinstance(n.targets[0].value, ast.Name) and n.targets[0].value.id == D]
+    if len(stores) != 1:
+        return None
+    return D, expr.slice, stores[0]
+
+
+def memo_key_gaps(scope: Scope, D: str, store: ast.Assign) -> List[str]:
+    """Induction variables of loops that enclose the store but not the table's definition, on which the stored
+    value depends and which are missing from the store's key: the entry computed in one iteration is then
+    served to another iteration it is wrong for."""
+    par = scope.parents
+    ddef = scope.assigns[D][0]
+    outer = [l for l in par.loops_of(store) if not par.inside(ddef, l)]
+    ind = set()
+    for l in outer:
+        for n in ast.walk(l.target):
+            if isinstance(n, ast.Name):
+                ind.add(n.id)
+    # the key must CONTAIN the induction variable as a component (depending on it through a computed
+    # value - a length, a hash, a name - does not make the key determine it)
+    key = store.targets[0].slice
+    key_names = set(astx.names_in(key))
+    if isinstance(key, ast.Name):
+        d = scope.single_def(key.id, allow_mutated=True)
+        if isinstance(d, (ast.Tuple, ast.Name)):
+            key_names |= astx.names_in(d)
+    val_names = names_closure(scope, store.value, stop=ind | key_names)  # what the key pins down needs no further look
+    return sorted((val_names & ind) - key_names)
+
+
+def names_closure(scope: Scope, expr: ast.AST, stop=()) -> Set[str]:
+    """Names an expression depends on, following local single definitions (not through names in stop)."""
+    out: Set[str] = set()
+    work = [expr]
+    seen = set()
+    while work:
+        e = work.pop()
+        for n in ast.walk(e):
+            if isinstance(n, ast.Name) and n.id not in seen:
+                seen.add(n.id)
+                out.add(n.id)
+                if n.id in stop:
+                    continue
+                for st in scope.assigns.get(n.id, []):
+                    work.append(st.value)
+    return out
